@@ -45,8 +45,8 @@ def run(P, R):
             why = 'local payload `%s` vs published `%s`, same facts: %s, local status: %s' % (la, pa, same_facts,
                                                                                             local_status)
             # the payload must not be modified between the two calls
-            a, b = sorted((lc[0].lineno, pc[0].lineno))
-            rebound = [s for s in own_nodes(u.node) if isinstance(s, ast.Assign) and a < s.lineno < b and
+            a, b = sorted(((lc[0].lineno, lc[0].col_offset), (pc[0].lineno, pc[0].col_offset)))
+            rebound = [s for s in own_nodes(u.node) if isinstance(s, ast.Assign) and a < (s.lineno, s.col_offset) < b and
                        any(isinstance(t, ast.Name) and t.id == la for tg in s.targets for t in ast.walk(tg))]
             ok = ok and not rebound
         R.check(r1, ok, '%s applies and publishes the same payload on the same paths' % h, 'pair|%s' % h, u.loc(),
